@@ -44,6 +44,14 @@ class Ctx:
     def local(self, name):
         return self._env[name].t
 
+    def head(self, ordn):
+        """heap views as they were at the head of the current iteration of loop `ordn`"""
+        return OldCtx(self._eng, self._st.ghost[f"head{ordn}"], self._env)
+
+    def outer(self, ordn):
+        """ghost state of an enclosing `for` loop (its current iteration)"""
+        return self._st.ghost[f"loop{ordn}"]
+
     @property
     def st(self):
         return self._st
@@ -87,7 +95,11 @@ class LoopContract:
     def invariant(self, eng, st, ghost):
         c = self.contract.ctx(eng, st, ghost=ghost)
         for nm, f in self._lemmas:
-            st.assume(f(c))
+            try:
+                g = f(c)
+            except KeyError:
+                continue          # refers to a loop-head snapshot that does not exist at this point
+            st.assume(g)
             eng.used_lemmas.add(nm)
         out = self._inv(c)
         return [(nm, g) for nm, g in out]
